@@ -276,7 +276,7 @@ def run_case(case):
 
 @st.composite
 def cases(draw):
-    o = draw(cfggen.base_config(nmin=16, nmax=64, min_laststep=3, max_laststep=60))
+    o = draw(cfggen.base_config(nmin=16, nmax=64, min_laststep=3, max_laststep=60, big=24, via_rev=6))
     d = cfggen.derive(o)
     L = d["laststep"]
     o["outstep"] = draw(st.sampled_from([0, 1, 1, 2, 2, 3, 3, 7, max(L, 1), L + 5]))
